@@ -55,7 +55,7 @@ ASSUMPTIONS = [
     'the first test handed to the classes in entry (a) is a minimal Test subclass exposing '
     'dsref and evaluate().pvalue, the only two things the corrections read',
 ]
-BUDGET = {'quick': {'cases': 5000, 'shards': 16, 'seconds': 120, 'shrink_s': 30},
+BUDGET = {'quick': {'cases': 20000, 'shards': 16, 'seconds': 120, 'shrink_s': 30},
           'thorough': {'cases': 400000, 'shards': 16, 'seconds': 900, 'shrink_s': 60}}
 FLOORS = {'pvals': 0.5, 'student': 0.15, 'nontrivial': 0.5, 'tie': 0.15, 'nan': 0.10,
           'on_bonf_threshold': 0.05, 'on_holm_own_threshold': 0.08, 'mixed_flags': 0.25,
